@@ -46,9 +46,9 @@ ANCHORS = ['pfhedge.nn.functional:exp_utility',
            'pfhedge.nn.functional:quadratic_cvar',
            'pfhedge.nn.modules.loss:OCE.forward']
 PYTEST_WORKLOAD = True  # thorough tier also runs /repo/tests with these passive monitors attached (DESIGN.md 2.7)
-DECIDING = ["module.is_functional_at_current_parameter", "entropic_risk_measure", "expected_shortfall", "value_at_risk", "quadratic_cvar", "exp_utility", "isoelastic_utility",
+DECIDING = ["var.monotone_in_p", "module.is_functional_at_current_parameter", "entropic_risk_measure", "expected_shortfall", "value_at_risk", "quadratic_cvar", "exp_utility", "isoelastic_utility",
             "topp", "module.EntropicLoss", "module.IsoelasticLoss", "module.OCE", "module.target_first"]
-REQUIRED_BRANCHES = ["module.parameter_reassigned", "exp_utility.large_exponent.float64", "exp_utility.large_exponent.float32", "es.pN_integral", "es.pN_fractional", "var.min", "var.max", "var.kth", "var.between", "dim.none",
+REQUIRED_BRANCHES = ["var.median_of_odd_sample", "es.long_sample", "module.parameter_reassigned", "exp_utility.large_exponent.float64", "exp_utility.large_exponent.float32", "es.pN_integral", "es.pN_fractional", "var.min", "var.max", "var.kth", "var.between", "dim.none",
                      "entropic.large_ax", "qcvar.regular"]
 
 _CTX = None
@@ -383,6 +383,27 @@ def drv_functional(ctx, k, rng):
     lam = float(pick(rng, [1.0, 2.0, 10.0, 100.0, 1000.0])) if rng.random() < 0.6 else float(10 ** rng.uniform(0, 3))
     if nn <= 400:
         F.quadratic_cvar(x, lam, dim=dim)
+    if k % 20 == 7:
+        # the median level of an odd-sized sample (p N = k + 1/2 exactly: half-way between two order statistics)
+        xo = t(rng.standard_normal((int(pick(rng, [3, 5, 37])),)), x.dtype)
+        F.expected_shortfall(xo, 0.5, dim=0)
+        ctx.branch("var.median_of_odd_sample")
+        # between two order statistics the value at risk is only required to be monotone in p: a ladder of levels around the median
+        no = xo.shape[0]
+        ladder = sorted({max(0.5 - 1 / (2 * no), 1e-6), 0.5 - 1 / (4 * no), 0.5 - 1e-9, 0.5, 0.5 + 1e-9, 0.5 + 1 / (4 * no), min(0.5 + 1 / (2 * no), 1.0)})
+        vals = [float(F.value_at_risk(xo, p_, dim=0)) for p_ in ladder]
+        ctx.seen("var.monotone_in_p")
+        e_ = float(torch.finfo(xo.dtype).eps)
+        okm = all(vals[i] <= vals[i + 1] + 8 * e_ * (abs(vals[i]) + abs(vals[i + 1])) for i in range(len(vals) - 1))
+        ctx.check("var.monotone_in_p", okm, "var_not_monotone", f"value at risk not monotone in p around the median of an odd-sized sample: levels {ladder} give {vals}",
+                  sig=("median", no, str(xo.dtype)), sample=xo, levels=ladder, values=vals)
+    if k % 20 == 13:
+        # a long sample (the tail holds thousands of outcomes)
+        xl = t(rng.standard_normal((int(pick(rng, [3000, 6000])),)), x.dtype)
+        pl_ = float(pick(rng, [0.5, 0.75, 0.9, 1.0]))
+        F.expected_shortfall(xl, pl_, dim=0)
+        F.value_at_risk(xl, float(pick(rng, [0.5, 0.75, 0.9])), dim=0)
+        ctx.branch("es.long_sample")
     # topp: the k = ceil(p N) extreme elements, values sorted, indices pointing at them
     mon = "topp"
     ctx.seen(mon)
@@ -426,7 +447,8 @@ def drv_functional(ctx, k, rng):
     mon = "isoelastic_utility"
     ctx.seen(mon)
     xp = xa.abs() + 0.05
-    ai = float(pick(rng, [1.0, 0.5, 0.1, 0.9]))
+    # (a just below 1 is still the power utility, not the logarithm)
+    ai = float(pick(rng, [1.0, 0.5, 0.1, 0.9, 1.0 - 1e-10, math.nextafter(1.0, 0.0)]))
     u = F.isoelastic_utility(xp, ai)
     want = torch.tensor([float(mpmath.log(mpmath.mpf(v)) if ai == 1.0 else mpmath.mpf(v) ** (1 - mpmath.mpf(ai)))
                          for v in xp.reshape(-1)[:8].to(F64).tolist()], dtype=F64)
@@ -508,7 +530,7 @@ def drv_modules(ctx, k, rng):
             ctx.check(mon, ok, "value", "EntropicLoss != -mean(-exp(-a x))", sig=(name, ncls(n), str(x.dtype), x.dim(), a), x=d, a=a, got=out)
     # isoelastic on positive samples
     xp = x.abs() + 0.1
-    ai = float(pick(rng, [1.0, 0.5, 0.1]))
+    ai = float(pick(rng, [1.0, 0.5, 0.1, 1.0 - 1e-10]))
     m = IsoelasticLoss(ai)
     if rng.random() < 0.3:
         m = IsoelasticLoss(0.7)
